@@ -99,7 +99,7 @@ Section CosineInt.
     set (nx := of_val w (Spec.Zsum (map (fun x => (V sg w x * V sg w x)%Z) a))) in *.
     set (ny := of_val w (Spec.Zsum (map (fun x => (V sg w x * V sg w x)%Z) b))) in *.
     unfold cosine, Mth in H. cbn [int_math m_cmp_eq m_zero m_one m_div m_sqrt m_mul m_sub] in H.
-    unfold i_eq in H.
+    unfold i_eq in H. unfold Mth.
     destruct (generic_cosine R (int_math sg w) dims m0) as [r m|m| |]; try contradiction;
       destruct H as [Hs E]; cbn [meets ret]; (split; [exact Hs|]).
     - destruct ((nx =? 0)%Z && (ny =? 0)%Z); [inversion E; reflexivity|].
